@@ -88,11 +88,13 @@ def dispatch(chk: Check) -> None:
     for name in ('play', 'pause', 'kill', 'status'):
         f = prog.view(mb.methods.get(name))
         chk.need(f is not None, f'MessageBuilder.{name} missing')
+        from ..rules import Resolver
         rets = [r for r in ast.walk(f.node) if isinstance(r, ast.Return)]
-        ok = len(rets) == 1 and isinstance(rets[0].value, ast.Dict)
+        rv = Resolver(f).expand(rets[0].value) if len(rets) == 1 else None
+        ok = isinstance(rv, ast.Dict)
         got = {}
         if ok:
-            for k, v in zip(rets[0].value.keys, rets[0].value.values):
+            for k, v in zip(rv.keys, rv.values):
                 got[prog.fold(f.module, k)] = v
             intent_v = prog.fold(f.module, got.get('intent')) if 'intent' in got else None
             want = prog.fold(prog.module('process_comms'), prog.cls('process_comms.Intent').attrs[name.upper()])
@@ -136,17 +138,23 @@ def announcement(chk: Check) -> None:
     if not sends:
         return
     s = sends[0]
-    chk.ob('DOM-announcement', oe, ('T', 'self._communicator') in ff.at(s), 'the announcement is made when (and only when) a communicator is set', kind='iff-communicator')
-    # exactly one per call: no loop around it, and every path with a communicator passes it
+    from ..decisions import paths_under, valuations
+    E = 'isinstance(self._state.LABEL, enum.Enum)'
+    dev = []
+    n_paths = 0
+    for c_on in (False, True):
+        for e_on in (False, True):
+            val = {'self._communicator': c_on, 'self._communicator is None': not c_on, E: e_on, 'isinstance(self.state, enum.Enum)': e_on}
+            for path in paths_under(ff, val):
+                if path[-1] is not cfg.exit:
+                    continue
+                n_paths += 1
+                sent = sum(1 for m in path if m is s)
+                if sent != (1 if (c_on and e_on) else 0):
+                    dev.append((c_on, e_on, sent))
     loops = [l for l in ast.walk(oe.node) if isinstance(l, (ast.For, ast.While)) and any(x is s.ast for x in ast.walk(l))]
-    tests = [t for t in cfg.nodes if t.kind == 'test' and ('T', 'self._communicator') in ff.cond_atoms(t.ast.test, True)]
-    ok = not loops and bool(tests) and all(cfg.must_pass(st, [cfg.exit], lambda m: m is s, edge_ok=no_exc) for t in tests for st, l in t.succ if l == 'true')
-    chk.ob('DOM-announcement', oe, ok, 'each completed transition is announced exactly once', kind='exactly-once')
-    extra = []
-    for t in tests:
-        conj = t.ast.test.values if isinstance(t.ast.test, ast.BoolOp) and isinstance(t.ast.test.op, ast.And) else [t.ast.test]
-        extra += [norm(c) for c in conj if norm(c) not in ('self._communicator', 'self._communicator is not None', 'isinstance(self.state, enum.Enum)')]
-    chk.ob('DOM-announcement', oe, not extra, f'no further condition decides whether a transition is announced (extra conjuncts: {extra})', kind='unconditional')
+    chk.ob('DOM-announcement', oe, not dev and not loops and n_paths >= 4, 'decision table over (a communicator is set, the state label is an enum): each completed transition is announced '
+           'exactly once when both hold -- whatever else is true of the process -- and never otherwise' + (f'; deviations {dev[:3]}' if dev else ''), kind='exactly-once')
     call = [c for c in _calls(s) if last_name(c) == 'broadcast_send'][0]
     kws = {k.arg: k.value for k in call.keywords}
     chk.ob('DOM-announcement', oe, 'sender' in kws and norm(kws['sender']) in ('self.pid', 'self._pid'), 'the sender is the process id', node=call, kind='sender-pid')
@@ -239,8 +247,9 @@ def loop_communicator(chk: Check) -> None:
     lc = prog.cls('communications.LoopCommunicator')
     n = 0
     for name, f in lc.methods.items():
-        if name in ('__init__', 'loop'):
+        if name in ('__init__', 'loop') or name.startswith('_'):
             continue
+        f = prog.view(f)
         n += 1
         inner = [c for c in calls_in_func(f) if norm(c.func) == f'self._communicator.{name}']
         ok = len(inner) == 1
